@@ -161,6 +161,25 @@ impl<'a> G<'a> {
         }
         s
     }
+    /// Mixed content of a <pre>: text chunks (some ending in a newline) and inline elements around
+    /// words, so that source lines start and end at text-node boundaries too.
+    pub fn pre_kids(&mut self) -> Vec<N> {
+        let n = 1 + self.r.below(6);
+        let mut v: Vec<N> = Vec::new();
+        for _ in 0..n {
+            if self.r.chance(1, 3) {
+                let nm = *self.r.pick(&["em", "strong", "code", "span", "em"]);
+                let mut t = self.token();
+                if self.r.chance(1, 3) { t.push(' '); t.push_str(&self.token()); }
+                v.push(N::el(nm, vec![N::T(t)]));
+            } else {
+                let mut t = self.pre_text();
+                if self.r.chance(1, 2) { t.push('\n'); }
+                if let Some(N::T(prev)) = v.last_mut() { prev.push_str(&t); } else { v.push(N::T(t)); }
+            }
+        }
+        v
+    }
     pub fn table(&mut self, depth: u32) -> N {
         let f = self.f;
         self.in_table += 1;
@@ -232,7 +251,10 @@ impl<'a> G<'a> {
                     let mut dd = N::el("dd", self.flow(depth + 1)); self.maybe_id(&mut dd, false);
                     N::el("dl", vec![dt, dd])
                 }
-                9 if f.pre => { let t = self.pre_text(); N::el("pre", vec![N::T(t)]) }
+                9 if f.pre => {
+                    if !f.inline || self.r.chance(1, 2) { let t = self.pre_text(); N::el("pre", vec![N::T(t)]) }
+                    else { let k = self.pre_kids(); N::el("pre", k) }
+                }
                 10 if f.tables && self.in_table < 2 => return self.table(depth),
                 11 => N::el(*self.r.pick(&["section", "article", "u", "center"]), self.flow(depth + 1)),
                 _ => continue,
